@@ -18,12 +18,12 @@ Definition script_num_size (n : N) : N :=
 Definition nlen {A} (l : list A) : N := N.of_nat (length l).
 Definition is_uncompressed (ke : keyenv) (k : key) : bool := blen (kb ke k) =? 65.
 
-(* ScriptContext::pk_len: 34/66 by compressedness in Bare/Legacy, 34 in Segwitv0, 33 in Tap *)
+(* ScriptContext::pk_len: 34/66 by compressedness in Bare/Legacy/Segwitv0 (Segwitv0 since /repo
+   8a94baa9; it answered 34 for every key before), 33 in Tap *)
 Definition pk_len (c : ctx) (ke : keyenv) (k : key) : N :=
   match c with
   | Tap => 33
-  | Segwitv0 => 34
-  | Bare | Legacy => if is_uncompressed ke k then 66 else 34
+  | Bare | Legacy | Segwitv0 => if is_uncompressed ke k then 66 else 34
   end.
 
 Definition sumN (l : list N) : N := fold_right N.add 0 l.
